@@ -13,6 +13,10 @@ BASES = [
     [("scope", 9, [("sus", 1, [("sus", 2, [("scope", 8, [("task", 1, 2)])]), ("task", 2, 1)])])],
     [("scope", 9, [("scope", 8, [("spawn", 1, 3)]), ("sus", 1, [("task", 2, 1)])]), ("task", 3, 2)],
     [("sus", 1, [("sus", 2, [("task", 1, 1)]), ("sus", 3, [("scope", 7, [("task", 2, 2)])])])],
+    # an enclosing scope spawns first, a descendant later (tasks of several scopes alive at the same time)
+    [("spawn", 1, 3), ("scope", 9, [("spawn", 2, 2), ("scope", 8, [("spawn", 3, 2)])])],
+    [("sus", 1, [("task", 1, 3), ("scope", 9, [("task", 2, 2)]), ("sus", 2, [("task", 3, 1), ("scope", 8, [("task", 4, 2)])])])],
+    [("scope", 9, [("task", 1, 2), ("sus", 1, [("scope", 8, [("task", 2, 2), ("spawn", 3, 1)])])])],
 ]
 
 
